@@ -57,6 +57,13 @@ CLAIMS = {
         text="PARTIAL (third-party hash code). Coq theorems about WHICH bytes are hashed: for every read schedule the pre-image is the concatenation of the data read before end of file, independent of how reads are split or interrupted; a hard error before EOF is returned and nothing is hashed; the patch pre-image is the newline-terminated lines not containing '$NetBSD', a final unterminated line counting as terminated; names parse case-insensitively (incl. the U+212A corner) and print canonically. That the six RustCrypto crates compute the standard functions is NOT proved: each run compares hash_str/hash_file/hash_patch with Python hashlib on lengths around every block boundary, multi-KiB inputs and scripted readers (1-byte reads, random short reads, cuts inside '$NetBSD' and at newlines, Interrupted/hard errors at every position).",
         ref="§7 C13", note=TB + " Reference digests: Python hashlib (OpenSSL).",
         technique="Coq proof (read-loop model) + differential testing against reference digests"),
+    "C14": dict(
+        text="Coq theorems for ALL byte strings: the line scanner returns exactly the lines containing a non-blank byte, in order (C14_scanner, by a fold invariant on the scanner state), so Plist::from_bytes = per-line parsing of exactly those lines, with or without a final newline, for every line length >= 1; a line not starting with '@' is a File entry holding the whole line; each of the 18 command words maps to its entry kind with its required/optional/forbidden argument rule, the argument being the text after the first space stripped of leading blanks only (C14_entry_table); unknown '@' words are errors. Correspondence each run (the entry list is read through a cfg-guarded hook): generated lists with names of length 1/2/n over arbitrary bytes, every command with absent/empty/ASCII/UTF-8/non-UTF-8 arguments, blank-only lines, with/without final newline; the whole-list parse is also compared with the per-line parses on the implementation.",
+        ref="§7 C14, §8 D8/D9", note=TB + " Uses the hook Plist::verif_entries() (cfg pkgsrc_verif) to observe all entries.",
+        technique="Coq proof (scanner fold invariant, command table) + model/implementation differential correspondence + per-line oracle"),
+    "C15": dict(
+        text="Coq theorems over ALL entry sequences, read block by block (a run of non-file entries then a file): files() lists a file unless an @ignore lies between it and the preceding file or the start; files_prefixed() lists the same files prefixed with the most recent @cwd (empty if none) plus '/' unless it ends in one; install/uninstall lists contain exactly those files plus exactly the listed command kinds in original order (C15_cmds_block, C15_views_same_files, C15_only_listed_kinds); is_preserve iff an @option preserve entry exists; the kind filters are definitional. Correspondence each run: valid lists with consecutive/trailing/separated @ignore and @cwd changes, all twelve queries vs the model, plus same-files cross-checks on the implementation's own answers.",
+        ref="§7 C15", note=TB, technique="Coq proof (induction over entry blocks) + model/implementation differential correspondence + cross-query oracle"),
     "C18": dict(
         text="Coq theorems for all strings: with a '-' base ++ '-' ++ version rebuilds the name and the version has no '-'; without, the whole string is the base; for EVERY prefix p a version p++'nb'++digits has PkgName revision nbval(digits) and the version comparison's revision is the same number (no token of the tokeniser can straddle the final nb); no 'nb' -> None. Correspondence each run: PkgName::new vs model on structured names, plus probes of the matcher's revision through 'base>=VERnbK' patterns.",
         ref="§7 C18", note=TB + " The pkg_summary pkgbase()/pkgversion() agreement is C18_summary_agrees (SummaryPkg.v).",
@@ -90,9 +97,9 @@ def main():
         "setup_cmd": "./check --setup",
         "hooks": {
             "guard": "pkgsrc_verif",
-            "enable": "RUSTFLAGS='--cfg pkgsrc_verif' cargo build --offline (set by ./check when it builds /verif/harness against /repo); no hook is currently needed: every observed operation is public API",
+            "enable": "RUSTFLAGS='--cfg pkgsrc_verif' cargo build --offline (set by ./check when it builds /verif/harness against /repo); one hook: Plist::verif_entries() (commit e6ce60e) exposes the parsed PLIST entries; everything else observed is public API",
             "baseline_off_cmd": "cd /repo && cargo test --workspace --no-fail-fast --offline",
-            "source_commits": [],
+            "source_commits": ["e6ce60e"],
             "add_only": True,
         },
         "engines": [{
